@@ -3,6 +3,8 @@ CONSTANTS
   Threads = {1, 2, 3}
   CompilerScope = "per execution"
   ColumnMemo = "none"
+  ParserScope = "per call"
+  ScanMemo = "none"
   JobSet = ""
   Family = "all"
 INIT SInit
